@@ -241,13 +241,13 @@ def install2(R: Registry):
              "forall('m:Module', implies(old(ismod(mm, m)) and old(m.conn.closed), ismod(mm, m)))",
              "nested calls only remove live modules (a module in the middle of its own removal stays in the table)")
     R.define("wfw", "mm: MessageManager", "wf_weak(mm) and names_ok(mm) and validation_off()")
-    BASE_REQ = [("C03", "wfw(self)")]
+    BASE_REQ = [("C01 C03 C05 C06 C07 C14 C18 C19", "wfw(self)")]
     BASE_ENS = BE + [("C03", "names_ok(self) and validation_off()"), ("C07", "stays_if_closed(self)")]
 
     # ------------------------------------------------------------------ logging (derived from RTMALogHandler.emit)
     for lvl in ("debug", "info", "warning", "error", "critical", "exception"):
         R.external(f"RTMALogger.{lvl}", params=dict(self="RTMALogger", msg="Str"),
-                   requires=[("C03", "self.owner != null and wfw(self.owner)")],
+                   requires=[("C01 C03 C05 C06 C07 C14 C18 C19", "self.owner != null and wfw(self.owner)")],
                    modifies=BM,
                    ensures=[(t, c.replace("self", "self.owner")) for t, c in BASE_ENS],
                    doc="logging dispatch -> RTMALogHandler.emit -> owner.send_message(RTMA_LOG_*) with Exception swallowed; "
@@ -294,7 +294,7 @@ def install2(R: Registry):
                modifies=BM, ensures=BASE_ENS)
     R.contract(M + "MessageManager.remove_module", tags="C07",
                params=dict(module="Module"),
-               requires=[("C03", "wf_core(self) and I6x(self, module) and names_ok(self) and validation_off()"),
+               requires=[("C01 C03 C05 C06 C07 C14 C18 C19", "wf_core(self) and I6x(self, module) and names_ok(self) and validation_off()"),
                          ("C07", "handle_ok(self, module)"), "module != self.mm_module",
                          ("C07", "implies(ismod(self, module), not module.conn.closed)", "a module in the table is removed before it is closed, never twice")],
                modifies=BM,
@@ -389,7 +389,7 @@ def install2(R: Registry):
 def install3(R: Registry):
     """third part: notices, loggers, acknowledgements, connection handling"""
     BM, BE = R.BCAST_MODIFIES, R.BCAST_ENSURES
-    BASE_REQ = [("C03", "wfw(self)")]
+    BASE_REQ = [("C01 C03 C05 C06 C07 C14 C18 C19", "wfw(self)")]
     BASE_ENS = BE + [("C03", "names_ok(self) and validation_off()"), ("C07", "stays_if_closed(self)")]
     R.BASE_REQ, R.BASE_ENS = BASE_REQ, BASE_ENS
 
@@ -436,7 +436,7 @@ def install4(R: Registry):
              "sends made outside any delivery (acknowledgements) are attributed to gid 0")
     R.define("wf_top", "mm: MessageManager", "wfw(mm) and all_open(mm) and buffers_ok(mm) and cur_gid == 0",
              "the manager invariant between frames")
-    TOP_REQ = [("C03", "wf_top(self)")]
+    TOP_REQ = [("C01 C03 C05 C06 C07 C14 C18 C19", "wf_top(self)")]
     TOP_ENS = NOGID + [("C01 C14", "top_gids_untouched()"), ("C03 C07", "all_open(self) and buffers_ok(self) and cur_gid == 0")]
     R.TOP_REQ, R.TOP_ENS, R.TOP_MOD = TOP_REQ, TOP_ENS, BM + ["glob:acks", "glob:ack_copies"]
     TOP_MOD = BM + ["glob:acks", "glob:ack_copies"]
@@ -524,7 +524,7 @@ def install5(R: Registry):
              "identity of every other module is untouched (an incumbent is never disturbed by another client's request)")
 
     R.contract(M + "MessageManager.assign_module_id", tags="C06 C03", returns="Int",
-               requires=[("C03", "wfw(self)"), "0 <= self.next_dynamic_mod_id_offset and self.next_dynamic_mod_id_offset < 100"],
+               requires=[("C01 C03 C05 C06 C07 C14 C18 C19", "wfw(self)"), "0 <= self.next_dynamic_mod_id_offset and self.next_dynamic_mod_id_offset < 100"],
                modifies=R.BCAST_MODIFIES + ["MessageManager.next_dynamic_mod_id_offset"],
                ensures=R.BASE_ENS + [
                    ("C06", "100 <= result and result < 200", "a dynamic id comes from the dynamic range"),
